@@ -32,6 +32,10 @@ def read_returns_decoded(ctx, rule: str):
     prog = ctx.prog
     rd = ctx.fn(f"{LAN}._read")
     rt = [t for _pc, t, n, _ in summarize(prog, rd).returns if n is not None]
-    rd_ok = len(rt) == 1 and call_is(strip(rt[0]), "msmart.lan._Packet.decode") and strip(strip(rt[0])[2][-1])[0] == "await" and meth_is(strip(strip(strip(rt[0])[2][-1])[1]), "read")
+    def leaves(x):
+        x = strip(x)
+        return leaves(x[2]) + leaves(x[3]) if x[0] == "ite" else [x]
+    rd_ok = len(rt) == 1 and call_is(strip(rt[0]), "msmart.lan._Packet.decode") and \
+        all(y[0] == "await" and meth_is(strip(y[1]), "read") for y in leaves(strip(rt[0])[2][-1]))          # (whichever way the timeout is passed on)
     ctx.ob(rule, rd.qual, rd_ok, "_read returns _Packet.decode(await protocol.read())", func=rd.qual, file=rd.module.rel, construct="_read", fail="_read does not return the decoded packet it read")
     return rd_ok
